@@ -597,7 +597,7 @@ func (x *Exec) applyContract(cs *callSite, callee *ssa.Function, c *FuncContract
 		parts := conjuncts(cl.Expr)
 		base := x.oblName(cs.fr, fmt.Sprintf("call-pre[%s#%d]", cname, i), cs.pos)
 		for pi, pe := range parts {
-			t, err := x.evalBool(env, pe)
+			t, err := x.evalBool(env.proving(), pe)
 			if err != nil {
 				x.unsupported(fmt.Sprintf("requires of %s: %v", cname, err))
 				continue
@@ -647,7 +647,7 @@ func (x *Exec) applyContract(cs *callSite, callee *ssa.Function, c *FuncContract
 		if cl.Kind != "ensures" {
 			continue
 		}
-		t, err := x.evalBool(env2, cl.Expr)
+		t, err := x.evalBool(env2.assuming(), cl.Expr)
 		if err != nil {
 			x.unsupported(fmt.Sprintf("ensures of %s: %v", cname, err))
 			continue
